@@ -91,7 +91,7 @@ def tricky_expr(r):
 COMMENTS = ["// plain", "//", "// ends with backslash \\", "// backslash then blank C:\\tmp\\ ", "// backslash then tab \\\t", "// backslash, blanks \\   ", "/* block */", "/**/", "/* multi\n   line */", "/* tab\there */", "// café 中",
             "/* star\n * cont\n */", "/*! doc\n    *tight\n    */", "// a /* b */ c", "/* a // b */", "//\ttab", "// trailing   ", "/*  two  spaces  */"]
 LITERALS = ["\"plain\"", "\"esc \\\" q\"", "\"tab\\there\"", "\"real\ttab\"", "'c'", "'\\''", "'\\\\'", "L\"wide\"", "u8\"u8\"", "u\"u\"", "U'x'", "L'w'",
-            "R\"(raw \"q\" )\"", "R\"x(a)\"b)x\"", "LR\"(say \"hello,world\" and \"a+b=c\" twice)\"", "u8R\"d(x \t y)d\"", "UR\"(U)\"", "uR\"(u)\"",
+            "R\"(raw \"q\" )\"", "R\"x(a)\"b)x\"", "R\"xy(a)xz\"b)xy\"", "LR\"(say \"hello,world\" and \"a+b=c\" twice)\"", "u8R\"d(x \t y)d\"", "UR\"(U)\"", "uR\"(u)\"",
             "R\"(line1\nline2 \t )\"", "\"a\" \"b\"", "\"// not a comment\"", "\"/* neither */\"", "'\"'", "\"\\\\\"", "\"  two  spaces  \"", "\"café\""]
 
 
@@ -99,6 +99,7 @@ def literal_program(r, n=12, cpp=True):
     """statements with literals of every form, comments at many positions"""
     out = ["#include <std io.h>", "#include \"my  file.h\"", "#define STR \"in  macro\" /* c */",
            # block comments that span continuation lines of a directive: text right up to the backslash, a blank before it, a star line
+           "#warning \"a\\ b\" c\\ d",
            "#define ONCE(a) /* evaluate the argument once\\\n   and only once */ (a)",
            "#define TWICE(a) do { /* first \\\n * second\\\n */ a; a; } while (0)", ""]
     out.append("int f(int a) {")
